@@ -845,3 +845,34 @@ pub enum VisibilityPolicy {
 /// not [`TickPolicy::EveryFrame`].
 #[derive(Default, Resource, Deref, DerefMut)]
 struct DespawnBuffer(Vec<Entity>);
+
+/// Read-only accessors for external verification harnesses.
+#[cfg(replicon_verif)]
+pub mod verif {
+    use bevy::prelude::*;
+
+    use super::{DespawnBuffer, related_entities::RelatedEntities, removal_buffer::RemovalBuffer};
+
+    /// Returns the content of the despawn buffer.
+    pub fn despawn_buffer(world: &World) -> Vec<Entity> {
+        world
+            .get_resource::<DespawnBuffer>()
+            .map(|buffer| buffer.0.clone())
+            .unwrap_or_default()
+    }
+
+    /// Returns the content of the removal buffer as `(entity, function ids)`.
+    pub fn removal_buffer(world: &World) -> Vec<(Entity, Vec<usize>)> {
+        world
+            .get_resource::<RemovalBuffer>()
+            .map(|buffer| buffer.verif_snapshot())
+            .unwrap_or_default()
+    }
+
+    /// Returns the graph index assigned to an entity by the last graph rebuild.
+    pub fn graph_index(world: &World, entity: Entity) -> Option<usize> {
+        world
+            .get_resource::<RelatedEntities>()
+            .and_then(|related| related.verif_graph_index(entity))
+    }
+}
